@@ -206,6 +206,9 @@ def startPre (o : Ops) (s0 : MSt) (tag : Str) (attrs0 : List (Str × Str)) : MSt
       else if kv.1 == S "xmlns" then trackNamespace st none kv.2 else st) s2
   (s3, attrsD)
 
+def dropDecls (attrsD : List (Str × Str)) : List (Str × Str) :=
+  attrsD.filter fun kv => !(kv.1 == S "xmlns" || (S "xmlns:").isPrefixOf kv.1)
+
 /-- the dispatch of `unknown_starttag`: structural handler, other handler (outside the model), or the
 fallback for elements without a handler (mixin.py:305-320) -/
 def dispatchStart (s3 : MSt) (h : Str) (attrsD : List (Str × Str)) : Outcome :=
@@ -232,9 +235,10 @@ def dispatchStart (s3 : MSt) (h : Str) (attrsD : List (Str × Str)) : Outcome :=
       | none => .ok s5
   else if hasStart h then .unmodelled (S "handler _start_" ++ h)
   else
-    -- fallback: no handler
-    if attrsD.isEmpty then .ok (push s3 h true)
-    else .ok (setContext s3 h (.d attrsD))
+    -- fallback: no handler (namespace declarations do not count as attributes)
+    let a := dropDecls attrsD
+    if a.isEmpty then .ok (push s3 h true)
+    else .ok (setContext s3 h (.d a))
 
 def startTag (o : Ops) (s0 : MSt) (tag : Str) (attrs0 : List (Str × Str)) : Outcome :=
   let r := startPre o s0 tag attrs0
